@@ -41,6 +41,17 @@ use xor_name::XorName;
 pub struct StubState {
     pub valid: bool,
     pub calls: u64,
+    /// per-INPUT-index verdict (isValid, amountPaid) for the entries of the next verifyPayment calls; `None` = the legacy
+    /// behaviour (every result carries the global `valid` flag and amountPaid 1). Inputs without an entry are invalid/unpaid.
+    pub verdicts: Option<Vec<(bool, u64)>>,
+    /// which input indexes fill the three result slots (default: the first three inputs, in order)
+    pub pick: Option<Vec<usize>>,
+    /// how the contract misbehaves on eth_call: "jsonrpcError" | "http500" | "emptyResult" | "shortData" | "closeSocket"
+    pub fail: Option<String>,
+    /// what the node sent: per eth_call the decoded (quoteHash, six metrics words, rewardsAddress) triples, hex, in calldata order
+    pub received: Vec<Vec<(String, String, String)>>,
+    /// eth_call requests whose calldata did not have the shape of verifyPayment(PaymentVerification[])
+    pub undecodable: u64,
 }
 
 pub struct EvmStub {
@@ -65,7 +76,7 @@ impl EvmStub {
     pub fn start() -> Self {
         let listener = TcpListener::bind("127.0.0.1:0").expect("bind stub");
         let port = listener.local_addr().expect("addr").port();
-        let state = Arc::new(Mutex::new(StubState { valid: true, calls: 0 }));
+        let state = Arc::new(Mutex::new(StubState { valid: true, ..Default::default() }));
         let st = state.clone();
         std::thread::spawn(move || {
             for stream in listener.incoming() {
@@ -104,6 +115,36 @@ impl EvmStub {
                         let body = buf[he..he + clen].to_vec();
                         buf.drain(..he + clen);
                         let req: Value = serde_json::from_slice(&body).unwrap_or(json!({}));
+                        // transport-level misbehaviour of the contract endpoint (only for a single eth_call request)
+                        if req["method"].as_str() == Some("eth_call") {
+                            let fail = st.lock().expect("stub lock").fail.clone();
+                            if let Some(f) = fail.as_deref().filter(|f| matches!(*f, "http500" | "closeSocket" | "jsonrpcError")) {
+                                {
+                                    let p = &req["params"][0];
+                                    let data = p["input"].as_str().or(p["data"].as_str()).unwrap_or("0x");
+                                    let mut g = st.lock().expect("stub lock");
+                                    g.calls += 1;
+                                    match decode_verify_calldata(&unhex(data)) { Some(t) => g.received.push(t), None => g.undecodable += 1 }
+                                }
+                                match f {
+                                    "closeSocket" => return,
+                                    "http500" => {
+                                        let b = b"internal error";
+                                        let head = format!("HTTP/1.1 500 Internal Server Error\r\ncontent-type: text/plain\r\ncontent-length: {}\r\nconnection: close\r\n\r\n", b.len());
+                                        let _ = stream.write_all(head.as_bytes());
+                                        let _ = stream.write_all(b);
+                                        return;
+                                    }
+                                    _ => {
+                                        let resp = json!({"jsonrpc": "2.0", "id": req["id"].clone(), "error": {"code": -32000, "message": "execution reverted"}});
+                                        let body = serde_json::to_vec(&resp).unwrap_or_default();
+                                        let head = format!("HTTP/1.1 200 OK\r\ncontent-type: application/json\r\ncontent-length: {}\r\nconnection: keep-alive\r\n\r\n", body.len());
+                                        if stream.write_all(head.as_bytes()).is_err() || stream.write_all(&body).is_err() { return; }
+                                        continue;
+                                    }
+                                }
+                            }
+                        }
                         let answer = |r: &Value| -> Value {
                             let id = r["id"].clone();
                             let method = r["method"].as_str().unwrap_or("");
@@ -124,15 +165,28 @@ impl EvmStub {
                                     }
                                     let mut g = st.lock().expect("stub lock");
                                     g.calls += 1;
+                                    match decode_verify_calldata(&bytes) { Some(t) => g.received.push(t), None => g.undecodable += 1 }
                                     let valid = g.valid;
                                     let mut out = String::from("0x");
-                                    for i in 0..3 {
+                                    for slot in 0..3 {
+                                        // the input entry answered in this result slot
+                                        let i = g.pick.as_ref().map(|p| p.get(slot).cloned().unwrap_or(usize::MAX)).unwrap_or(slot);
                                         let h = hashes.get(i).cloned().unwrap_or([0u8; 32]);
+                                        let (ok, amount) = match &g.verdicts {
+                                            None => (valid, 1u64),
+                                            // a slot no input fills keeps Solidity's zero values (invalid, nothing paid)
+                                            Some(v) => if i < hashes.len() { v.get(i).cloned().unwrap_or((false, 0)) } else { (false, 0) },
+                                        };
                                         out.push_str(&hex::encode(h));
-                                        out.push_str(&format!("{:064x}", 1u64)); // amountPaid
-                                        out.push_str(&format!("{:064x}", if valid { 1u64 } else { 0u64 }));
+                                        out.push_str(&format!("{:064x}", amount)); // amountPaid
+                                        out.push_str(&format!("{:064x}", if ok { 1u64 } else { 0u64 }));
                                     }
-                                    json!(out)
+                                    match g.fail.as_deref() {
+                                        Some("emptyResult") => json!("0x"),
+                                        // two and a half result entries
+                                        Some("shortData") => json!(out[..2 + 5 * 64].to_string()),
+                                        _ => json!(out),
+                                    }
                                 }
                                 "eth_chainId" => json!("0x1"),
                                 "eth_blockNumber" => json!("0x1"),
@@ -165,6 +219,103 @@ impl EvmStub {
     pub fn calls(&self) -> u64 {
         self.state.lock().expect("lock").calls
     }
+    /// Prescribe the contract's behaviour for the next calls: per-input verdicts, result slots, failure mode.
+    pub fn prescribe(&self, verdicts: Option<Vec<(bool, u64)>>, pick: Option<Vec<usize>>, fail: Option<String>) {
+        let mut g = self.state.lock().expect("lock");
+        g.verdicts = verdicts;
+        g.pick = pick;
+        g.fail = fail;
+    }
+    /// Take (and forget) what the node sent since the last call of this function.
+    pub fn take_received(&self) -> (Vec<Vec<(String, String, String)>>, u64) {
+        let mut g = self.state.lock().expect("lock");
+        let u = g.undecodable;
+        g.undecodable = 0;
+        (std::mem::take(&mut g.received), u)
+    }
+}
+
+/// Decode the calldata of verifyPayment(PaymentVerification[]): selector ++ offset ++ length ++ length x
+/// (closeRecordsStored, maxRecords, receivedPaymentCount, liveTime, networkDensity, networkSize, rewardsAddress, quoteHash).
+/// Returns per entry (quoteHash, the six metrics words concatenated, rewardsAddress (20 bytes)) in hex; `None` when the
+/// data does not have exactly that shape.
+pub fn decode_verify_calldata(bytes: &[u8]) -> Option<Vec<(String, String, String)>> {
+    if bytes.len() < 4 + 64 { return None; }
+    let word = |i: usize| -> &[u8] { &bytes[4 + i * 32..4 + (i + 1) * 32] };
+    if word(0)[..24].iter().any(|b| *b != 0) || u64::from_be_bytes(word(0)[24..].try_into().ok()?) != 32 { return None; }
+    if word(1)[..24].iter().any(|b| *b != 0) { return None; }
+    let n = u64::from_be_bytes(word(1)[24..].try_into().ok()?) as usize;
+    if bytes.len() != 4 + 64 + n * 8 * 32 { return None; }
+    let mut out = vec![];
+    for i in 0..n {
+        let base = 2 + i * 8;
+        let metrics: String = (0..6).map(|k| hex::encode(word(base + k))).collect();
+        let addr_word = word(base + 6);
+        if addr_word[..12].iter().any(|b| *b != 0) { return None; }
+        out.push((hex::encode(word(base + 7)), metrics, hex::encode(&addr_word[12..])));
+    }
+    Some(out)
+}
+
+// ------------------------------------------------------------------------------------------
+// Keccak-256, written out here so that the driver's expectation of a quote hash does not go through the code
+// under test (evmlib::cryptography::hash) nor through the library it uses. Checked against two known digests
+// by `keccak_selftest`.
+// ------------------------------------------------------------------------------------------
+pub fn keccak256(data: &[u8]) -> [u8; 32] {
+    const RC: [u64; 24] = [
+        0x0000000000000001, 0x0000000000008082, 0x800000000000808a, 0x8000000080008000, 0x000000000000808b, 0x0000000080000001,
+        0x8000000080008081, 0x8000000000008009, 0x000000000000008a, 0x0000000000000088, 0x0000000080008009, 0x000000008000000a,
+        0x000000008000808b, 0x800000000000008b, 0x8000000000008089, 0x8000000000008003, 0x8000000000008002, 0x8000000000000080,
+        0x000000000000800a, 0x800000008000000a, 0x8000000080008081, 0x8000000000008080, 0x0000000080000001, 0x8000000080008008,
+    ];
+    const ROTC: [u32; 24] = [1, 3, 6, 10, 15, 21, 28, 36, 45, 55, 2, 14, 27, 41, 56, 8, 25, 43, 62, 18, 39, 61, 20, 44];
+    const PILN: [usize; 24] = [10, 7, 11, 17, 18, 3, 5, 16, 8, 21, 24, 4, 15, 23, 19, 13, 12, 2, 20, 14, 22, 9, 6, 1];
+    fn f(st: &mut [u64; 25]) {
+        for rc in RC.iter() {
+            let mut bc = [0u64; 5];
+            for i in 0..5 { bc[i] = st[i] ^ st[i + 5] ^ st[i + 10] ^ st[i + 15] ^ st[i + 20]; }
+            for i in 0..5 {
+                let t = bc[(i + 4) % 5] ^ bc[(i + 1) % 5].rotate_left(1);
+                for j in (0..25).step_by(5) { st[j + i] ^= t; }
+            }
+            let mut t = st[1];
+            for i in 0..24 {
+                let j = PILN[i];
+                let b = st[j];
+                st[j] = t.rotate_left(ROTC[i]);
+                t = b;
+            }
+            for j in (0..25).step_by(5) {
+                let mut row = [0u64; 5];
+                row.copy_from_slice(&st[j..j + 5]);
+                for i in 0..5 { st[j + i] ^= (!row[(i + 1) % 5]) & row[(i + 2) % 5]; }
+            }
+            st[0] ^= *rc;
+        }
+    }
+    const RATE: usize = 136;
+    let mut st = [0u64; 25];
+    let mut padded = data.to_vec();
+    padded.push(0x01);
+    while padded.len() % RATE != 0 { padded.push(0); }
+    let last = padded.len() - 1;
+    padded[last] |= 0x80;
+    for block in padded.chunks(RATE) {
+        for (i, lane) in block.chunks(8).enumerate() {
+            st[i] ^= u64::from_le_bytes(lane.try_into().expect("lane"));
+        }
+        f(&mut st);
+    }
+    let mut out = [0u8; 32];
+    for i in 0..4 { out[i * 8..(i + 1) * 8].copy_from_slice(&st[i].to_le_bytes()); }
+    out
+}
+pub fn keccak_selftest() -> bool {
+    hex::encode(keccak256(b"")) == "c5d2460186f7233c927e7db2dcc703c0e500b653ca82273b7bfad8045d85a470"
+        && hex::encode(keccak256(b"abc")) == "4e03657aea45a94fc7d47ba826c8d667c0d1e6e33a64a036ec44f58fa12d6c45"
+        // more than one block: against the library the code under test uses (a self-test of THIS implementation only)
+        && (0..4usize).all(|k| { let v: Vec<u8> = (0..(135 + k * 67)).map(|i| (i * 7 + k) as u8).collect(); keccak256(&v) == evmlib::cryptography::hash(&v).0 })
 }
 
 // ------------------------------------------------------------------------------------------
@@ -394,6 +545,158 @@ pub fn proof(me: &Keypair, near: &[Keypair], far: &Keypair, forger: &Keypair, co
     let third = if p.close { &near[1] } else { far };
     quotes.push((EncodedPeerId::from(PeerId::from(third.public())), signed_quote(third, third, content, 5)));
     ProofOfPayment { peer_quotes: quotes }
+}
+
+// ------------------------------------------------------------------------------------------
+// Extended proofs (C03 review items 1-3, 6): every quote carries its own metrics and rewards address; the failing
+// condition can sit in any quote position; this node's quote can sit at any index; proofs with duplicated payees,
+// two quotes of this node, and 1 / 2 / 4 / 5 quotes.
+// ------------------------------------------------------------------------------------------
+/// metrics with six pairwise different field values, different for every `i`
+pub fn metrics_for(i: u64) -> QuotingMetrics {
+    QuotingMetrics {
+        close_records_stored: (3 + 11 * i) as usize,
+        max_records: (16384 + 13 * i) as usize,
+        received_payment_count: (5 + 17 * i) as usize,
+        live_time: 1000 + 19 * i,
+        network_density: if i % 3 == 2 { None } else { Some(sha256(&format!("density {i}"))) },
+        network_size: if i % 4 == 3 { None } else { Some(100_000 + 23 * i) },
+    }
+}
+pub fn rewards_for(i: u64) -> RewardsAddress {
+    let h = sha256(&format!("rewards address {i}"));
+    RewardsAddress::from_slice(&h[..20])
+}
+pub fn signed_quote_with(signer: &Keypair, claimed: &Keypair, content: XorName, age_secs: u64, m: QuotingMetrics, rewards: RewardsAddress) -> PaymentQuote {
+    let ts = SystemTime::now() - Duration::from_secs(age_secs);
+    let bytes = PaymentQuote::bytes_for_signing(content, ts, &m, &rewards);
+    PaymentQuote { content, timestamp: ts, quoting_metrics: m, rewards_address: rewards, pub_key: claimed.public().encode_protobuf(), signature: signer.sign(&bytes).expect("sign") }
+}
+/// What the payment contract must be asked about this quote, computed by the driver itself:
+/// quote hash = Keccak-256(content ++ timestamp secs (u64 LE) ++ msgpack(metrics) ++ rewards address ++ public key ++ signature)
+/// (data_payments.rs `hash` / `bytes_for_signing`), the six metrics as 32-byte big-endian words in the ABI's order
+/// (closeRecordsStored, maxRecords, receivedPaymentCount, liveTime, networkDensity, networkSize; absent = 0), the rewards address.
+pub fn expected_triple(q: &PaymentQuote) -> (String, String, String) {
+    let mut b: Vec<u8> = q.content.0.to_vec();
+    let secs = q.timestamp.duration_since(SystemTime::UNIX_EPOCH).map(|d| d.as_secs()).unwrap_or(0);
+    b.extend_from_slice(&secs.to_le_bytes());
+    b.extend_from_slice(&rmp_serde::to_vec(&q.quoting_metrics).unwrap_or_default());
+    b.extend_from_slice(q.rewards_address.as_slice());
+    b.extend_from_slice(&q.pub_key);
+    b.extend_from_slice(&q.signature);
+    let m = &q.quoting_metrics;
+    let w = |v: u128| format!("{:064x}", v);
+    let metrics = [w(m.close_records_stored as u128), w(m.max_records as u128), w(m.received_payment_count as u128), w(m.live_time as u128),
+                   hex::encode(m.network_density.unwrap_or([0u8; 32])), w(m.network_size.unwrap_or(0) as u128)].concat();
+    (hex::encode(keccak256(&b)), metrics, hex::encode(q.rewards_address.as_slice()))
+}
+
+#[derive(Clone, Debug)]
+pub struct PayX {
+    pub base: Pay,
+    /// the contract's behaviour: "ok" | "allBad" | "ownBadOnly" | "otherBadOnly" | "ownAmountZero" | a failure mode of the stub
+    pub mode: String,
+    /// which quote carries the failing condition (expired / forged / not close): "std" (expired = the first quote listed,
+    /// forged = first other payee, far = last other payee) | "own" | "otherFirst" | "otherLast"
+    pub pos: String,
+    /// index of this node's quote among the quotes
+    pub self_idx: usize,
+    /// "std" (three payees) | "dupAuthFirst" | "dupForgedFirst" | "twoOwnGoodFirst" | "twoOwnBadFirst" | "n1" | "n2" | "n4" | "n5"
+    pub shape: String,
+    /// which payee plays the last other payee: "std" | "in19" (19th closest known peer: the farthest that is still among
+    /// the K closest) | "out20" | "out21" (first / second known peer beyond the K closest)
+    pub edge: String,
+}
+impl PayX {
+    pub fn from_json(v: &Value) -> Self {
+        let base = Pay::from_json(v);
+        let s = |k: &str, d: &str| v[k].as_str().unwrap_or(d).to_string();
+        let mode = s("mode", if base.chain { "ok" } else { "allBad" });
+        PayX { base, mode, pos: s("pos", "std"), self_idx: v["selfIdx"].as_u64().unwrap_or(0) as usize, shape: s("shape", "std"), edge: s("edge", "std") }
+    }
+    pub fn is_plain(&self) -> bool {
+        (self.mode == "ok" || self.mode == "allBad") && self.pos == "std" && self.self_idx == 0 && self.shape == "std" && self.edge == "std"
+    }
+}
+
+/// The payees available to `proof_x`.
+pub struct Payees<'a> {
+    pub me: &'a Keypair,
+    /// payees the node knows as close (at least five)
+    pub near: &'a [Keypair],
+    /// a payee that is not close (unknown to the node, or known but beyond its K closest)
+    pub far: &'a Keypair,
+    pub forger: &'a Keypair,
+    /// known peers at the edge of the K closest: (19th closest, 20th, 21st)
+    pub edge: (&'a Keypair, &'a Keypair, &'a Keypair),
+}
+
+/// Build a proof for `p`. Returns the proof and the index of this node's (first) quote, if it has one.
+pub fn proof_x(k: &Payees, content: XorName, p: &PayX) -> (ProofOfPayment, Option<usize>) {
+    #[derive(Clone)]
+    struct Q { claimed: Keypair, signer: Keypair, key_of: Keypair, content: XorName, age: u64, own: bool }
+    let other_addr = XorName::from_content(b"some other address");
+    let b = p.base;
+    let honest = |kp: &Keypair| Q { claimed: kp.clone(), signer: kp.clone(), key_of: kp.clone(), content, age: 5, own: false };
+    let mine = |c: XorName, age: u64| Q { claimed: k.me.clone(), signer: k.me.clone(), key_of: k.me.clone(), content: c, age, own: true };
+    let n_others = match p.shape.as_str() { "n1" => 0, "n2" => 1, "n4" => 3, "n5" => 4, "twoOwnGoodFirst" | "twoOwnBadFirst" => 1, _ => 2 };
+    let mut others: Vec<Q> = k.near.iter().take(n_others).map(honest).collect();
+    // the quote in this node's place: its own, or (when it is not a payee) that of one more close payee
+    let own_q = if b.self_payee { mine(if b.addr { content } else { other_addr }, 5) } else { let mut q = honest(&k.near[4]); q.own = true; q };
+    // ---- the failing conditions, at the prescribed position
+    let first_last = |pos: &str, dflt_last: bool, n: usize| -> Option<usize> {
+        if n == 0 { return None; }
+        match pos { "otherFirst" => Some(0), "otherLast" => Some(n - 1), "std" => Some(if dflt_last { n - 1 } else { 0 }), _ => None }
+    };
+    let mut own_q = own_q;
+    // the last other payee may be a peer at the edge of the K closest
+    if let Some(i) = first_last("otherLast", true, others.len()) {
+        match p.edge.as_str() { "in19" => others[i] = honest(k.edge.0), "out20" => others[i] = honest(k.edge.1), "out21" => others[i] = honest(k.edge.2), _ => {} }
+    }
+    if !b.close && p.edge == "std" {
+        if let Some(i) = first_last(&p.pos, true, others.len()) { others[i] = honest(k.far); }
+        else if !b.self_payee { let own = own_q.own; own_q = honest(k.far); own_q.own = own; }
+    }
+    if !b.sigs && !p.shape.starts_with("dup") {
+        let forge = |q: &mut Q| { q.signer = k.forger.clone(); if b.forge_key { q.key_of = k.forger.clone(); } };
+        match first_last(&p.pos, false, others.len()) { Some(i) if p.pos != "own" => forge(&mut others[i]), _ => forge(&mut own_q) }
+    }
+    if !b.fresh && !p.shape.starts_with("twoOwn") {
+        match first_last(&p.pos, false, others.len()) { Some(i) if p.pos != "own" && p.pos != "std" => others[i].age = 3700, _ => own_q.age = 3700 }
+    }
+    // ---- shapes with a payee listed twice
+    let mut quotes: Vec<Q> = vec![];
+    match p.shape.as_str() {
+        "dupAuthFirst" | "dupForgedFirst" => {
+            // the same payee twice: one authentic quote and one forged under its name
+            let auth = others[0].clone();
+            let mut forged = auth.clone();
+            forged.signer = k.forger.clone();
+            if b.forge_key { forged.key_of = k.forger.clone(); }
+            others = if p.shape == "dupAuthFirst" { vec![auth, forged] } else { vec![forged, auth] };
+        }
+        "twoOwnGoodFirst" | "twoOwnBadFirst" => {
+            // two quotes of this node: a good one, and one for another address (addr = false) or expired (fresh = false)
+            let bad = mine(if b.addr { content } else { other_addr }, if b.fresh { 5 } else { 3700 });
+            let good = mine(content, 5);
+            let pair = if p.shape == "twoOwnGoodFirst" { vec![good, bad] } else { vec![bad, good] };
+            quotes.push(others[0].clone());
+            let at = p.self_idx.min(1);
+            for (j, q) in pair.into_iter().enumerate() { quotes.insert(at + j, q); }
+        }
+        _ => {}
+    }
+    if quotes.is_empty() {
+        quotes = others;
+        let at = p.self_idx.min(quotes.len());
+        quotes.insert(at, own_q);
+    }
+    let self_at = quotes.iter().position(|q| q.own && b.self_payee);
+    let pq: Vec<(EncodedPeerId, PaymentQuote)> = quotes.iter().enumerate().map(|(i, q)| {
+        (EncodedPeerId::from(PeerId::from(q.claimed.public())),
+         signed_quote_with(&q.signer, &q.key_of, q.content, q.age, metrics_for(i as u64 + 1), rewards_for(i as u64 + 1)))
+    }).collect();
+    (ProofOfPayment { peer_quotes: pq }, self_at)
 }
 
 // ------------------------------------------------------------------------------------------
